@@ -414,6 +414,41 @@ fn b64_one(b: &[u8], st: &mut Stats) {
 }
 
 // ------------------------------------------------------------------------------------------
+// long binary members: a challenge (and a user id / credential id) of several KiB in each of the
+// five presentations parses to the same value, and the emitted form parses back
+
+fn long_binary(stats: &mut Stats) {
+    for len in [255usize, 256, 1023, 1024, 4095, 4096, 4097, 5000, 65535, 65536, 100_000] {
+        for kind in ["create", "get"] {
+            let bytes: Vec<u8> = (0..len).map(|i| (i * 31 + 7) as u8).collect();
+            let mut docs: Vec<(&str, Value)> = vec![];
+            for (form, v) in [("array", arr(&bytes)), ("base64url", json!(b64::url_nopad(&bytes))), ("base64url-padded", json!(b64::url_pad(&bytes))), ("base64", json!(b64::std_nopad(&bytes))), ("base64-padded", json!(b64::std_pad(&bytes)))] {
+                let mut d = canonical(kind);
+                *d.pointer_mut("/publicKey/challenge").unwrap() = v;
+                docs.push((form, d));
+            }
+            let case = json!({"long_binary": {"doc": kind, "len": len}});
+            stats.case(&case.to_string(), true, "long-binary-member");
+            let parsed: Vec<(&str, Result<Result<String, String>, String>)> = docs.iter().map(|(f, d)| (*f, parse_debug(kind, &d.to_string()))).collect();
+            let first = &parsed[0].1;
+            for (form, r) in &parsed {
+                match r {
+                    Err(p) => stats.finding(Finding::new(format!("doc={kind}/kind=panic/long-binary"), format!("{len}-byte challenge as {form}: {p}"), case.clone())),
+                    Ok(Err(e)) => stats.finding(Finding::new(format!("doc={kind}/kind=long-binary-member-rejected"), format!("a {len}-byte challenge given as {form} does not parse: {e}"), case.clone())),
+                    Ok(Ok(v)) => {
+                        if let Ok(Ok(f)) = first {
+                            if f != v {
+                                stats.finding(Finding::new(format!("doc={kind}/kind=parses-to-different-value/long-binary"), format!("a {len}-byte challenge parses differently as {form} and as array"), case.clone()));
+                            }
+                        }
+                    }
+                }
+            }
+        }
+    }
+}
+
+// ------------------------------------------------------------------------------------------
 // named unknown members: every identifier-like string literal of the types crate, used as the
 // name of a member an object does not declare.  Such a member is ignored: (1) added to the full
 // document it changes nothing; (2) given the value of a declared optional member M in a document
@@ -840,6 +875,7 @@ pub fn run(ctx: &Ctx) -> Result<Run, String> {
     b64_identity(ctx, &mut stats);
     emitted(&mut stats);
     named_members(&mut stats, ctx.threads);
+    long_binary(&mut stats);
     for case in client_data_cases() {
         stats.case(&case.to_string(), true, "client-data-order");
         for f in client_data_one(&case) {
@@ -854,7 +890,7 @@ pub fn run(ctx: &Ctx) -> Result<Run, String> {
     }
     let mut run = Run::from_stats(
         "exploration",
-        "creation and request options: all 256 presence patterns of the optional members x one presentation change at a time (each binary member as array / base64url +- padding / base64 +- padding, timeout and alg as number / numeric string / integral float / float string, an unknown scalar/object/array member at every position of every object, an unknown string for every enumeration, an unknown entry at every index of every lenient list incl. pubKeyCredParams entries with an unknown alg in every member order and with trailing unknown members); thorough: all pairs of changes on the full document. Every document is parsed through three routes (borrowed text, an owned serde_json::Value, a byte reader) which must agree. Oracle: Debug of the parsed value equals that of the canonical presentation (unknown enum = member absent, unknown list entry = entry absent). Named unknown members: every identifier-like string literal of the types and client crates (and near-miss spellings of the declared names) as the name of an undeclared member of every object, with seven value shapes, and standing in for each declared member of that object (it must stay ignored; the one spelling the pinned tree documents, allowList, is exempt). Plus base64url encode/decode identity on all byte strings up to length 2 (3 thorough) and patterned lengths 4..64 against an own RFC 4648 codec; every credential emitted by 72 register+authenticate ceremonies re-parsed from its JSON; CollectedClientData member order for 3 extra-data types x 16 orders of 0..3 unknown members x crossOrigin x type, and the client data emitted by Client::register/authenticate for five caller-supplied extras with a standard member's name at each position. Non-trivial = distinct case with at least one presentation change / non-empty input",
+        "creation and request options: all 256 presence patterns of the optional members x one presentation change at a time (each binary member as array / base64url +- padding / base64 +- padding, timeout and alg as number / numeric string / integral float / float string, an unknown scalar/object/array member at every position of every object, an unknown string for every enumeration, an unknown entry at every index of every lenient list incl. pubKeyCredParams entries with an unknown alg in every member order and with trailing unknown members); thorough: all pairs of changes on the full document. Every document is parsed through three routes (borrowed text, an owned serde_json::Value, a byte reader) which must agree. Oracle: Debug of the parsed value equals that of the canonical presentation (unknown enum = member absent, unknown list entry = entry absent). Long binary members: a challenge of 255..100000 bytes in each of the five presentations parses to the same value. Named unknown members: every identifier-like string literal of the types and client crates (and near-miss spellings of the declared names) as the name of an undeclared member of every object, with seven value shapes, and standing in for each declared member of that object (it must stay ignored; the one spelling the pinned tree documents, allowList, is exempt). Plus base64url encode/decode identity on all byte strings up to length 2 (3 thorough) and patterned lengths 4..64 against an own RFC 4648 codec; every credential emitted by 72 register+authenticate ceremonies re-parsed from its JSON; CollectedClientData member order for 3 extra-data types x 16 orders of 0..3 unknown members x crossOrigin x type, and the client data emitted by Client::register/authenticate for five caller-supplied extras with a standard member's name at each position. Non-trivial = distinct case with at least one presentation change / non-empty input",
         true,
         stats,
     );
@@ -868,6 +904,11 @@ pub fn replay(ctx: &Ctx, case: &Value) -> Result<Vec<Finding>, String> {
         let mut st = Stats::new();
         b64_one(&b, &mut st);
         return Ok(st.findings.into_values().map(|x| x.0).collect());
+    }
+    if case.get("long_binary").is_some() {
+        let mut st = Stats::new();
+        long_binary(&mut st);
+        return Ok(st.findings.into_values().map(|x| x.0).filter(|f| f.case == *case).collect());
     }
     if let Some(e) = case.get("named_member") {
         return Ok(named_member_one(e["doc"].as_str().unwrap_or(""), e["object"].as_str().unwrap_or(""), e["name"].as_str().unwrap_or(""), case));
